@@ -55,6 +55,14 @@ def run_history(job):
                         contig, _, pset = ps[5:].rpartition("-")
                         fh.write(f"{names[pos - 1]}\t{ht[5:]}\t{pset}\t{contig}\n")
             tsvs.append(p)
+        def stat_of(path):
+            # the report of `gaftools stat --cigar` on a file, as a digest ("" if stat fails)
+            import hashlib
+
+            rs = run_cli(["stat", path, "--cigar"], timeout=60)
+            return hashlib.sha1(rs["stdout"].encode()).hexdigest()[:10] if rs["status"] == "ok" and rs["stdout"] else "stat_failed"
+
+        stat0 = stat_of(cur)
         first12 = {l.split("\t")[0]: l.split("\t")[:12] for l in lines}
         where = {n: k + 1 for k, n in enumerate(names)}
         steps = []
@@ -90,14 +98,14 @@ def run_history(job):
                         obs.append({"pos": pos, "tags": bag(fl[12:]) or {"_none_": 1}, "cols_ok": pos > 0 and fl[:12] == first12[fl[0]]})
             if status == "no_output_file":
                 kind = "no_output_file"
-            steps.append({"status": status, "kind": kind, "recs": obs})
+            steps.append({"status": status, "kind": kind, "recs": obs, "stat": stat_of(out) if status == "ok" else ""})
             if status != "ok":
                 break
             cur = out
         # a failed step ends the run; the remaining steps are reported as not run
         while len(steps) < len(hist):
-            steps.append({"status": "not_run", "kind": "not_run", "recs": []})
-        return {"id": hid, "file": f, "hist": hist, "init": [l.split("\t")[12:] for l in lines], "steps": steps}
+            steps.append({"status": "not_run", "kind": "not_run", "recs": [], "stat": ""})
+        return {"id": hid, "file": f, "hist": hist, "init": [l.split("\t")[12:] for l in lines], "stat0": stat0, "steps": steps}
     finally:
         readers.CASE = None
         shutil.rmtree(d, ignore_errors=True)
